@@ -1038,7 +1038,8 @@ class HistogramBase(abc.ABC):
             self.errors2 = self.errors2 / other / other
             self._missed /= other
             if hasattr(self, "_stats"):
-                self._stats *= 1 / other
+                # Reciprocal in double precision (that of a float32 is good to 6e-8 only)
+                self._stats *= 1 / float(other)
         elif config.free_arithmetics:  # Treat other as array-like
             self._coerce_dtype(np.float64)
             array = np.asarray(other)
